@@ -104,7 +104,7 @@ def d7(ctx, rep, prog):
     """D7: the bytes of an output file are a function of this run's inputs only — the generation-path writers replace the
     file (truncating primitives, no append / seek), so nothing a previous run left at the path survives (shared with C17 W5)."""
     from . import c17
-    for bid, (qual, file) in c17.GEN_WRITERS.items():
+    for bid, (qual, file) in list(c17.gen_writers(ctx, prog).items()):
         ks = [k for k in prog.bodies if prog.bodies[k]['id'] == bid]
         if len(ks) != 1:
             raise core.Incomplete(f'writer {bid} not found')
